@@ -30,6 +30,8 @@ pub struct Opts {
     pub scale_pct: u64,
     /// clamp every stream to this many cases (Miri / sanitizer runs); 0 = no clamp
     pub max_cases: u64,
+    /// (i, n): run only the cases whose index is congruent to i modulo n (sharded interpreter runs)
+    pub shard: (u64, u64),
     /// stream names to skip (too heavy for an interpreter)
     pub skip: Vec<String>,
     /// print a line per case to stderr (attribution of sanitizer reports)
@@ -284,8 +286,11 @@ pub fn run_streams(opts: &Opts, streams: Vec<Stream>) -> RunResult {
         if opts.skip.iter().any(|x| x == s.name) {
             continue;
         }
-        let count = if opts.max_cases > 0 { s.count.min(opts.max_cases) } else { s.count };
-        let s = &Stream { name: s.name, count, grain: s.grain, f: Box::new(|i, r, l| (s.f)(i, r, l)) };
+        // sharding maps the j-th case of this process to index shard.0 + j * shard.1
+        let (sh_i, sh_n) = (opts.shard.0, opts.shard.1.max(1));
+        let avail = if s.count > sh_i { (s.count - sh_i + sh_n - 1) / sh_n } else { 0 };
+        let count = if opts.max_cases > 0 { avail.min(opts.max_cases) } else { avail };
+        let s = &Stream { name: s.name, count, grain: s.grain, f: Box::new(move |j, r, l| (s.f)(sh_i + j * sh_n, r, l)) };
         stream_counts.push((s.name.to_string(), s.count));
         let next = AtomicU64::new(0);
         let results: Mutex<Vec<Local>> = Mutex::new(Vec::new());
@@ -302,13 +307,14 @@ pub fn run_streams(opts: &Opts, streams: Vec<Stream>) -> RunResult {
                             break;
                         }
                         let hi = (lo + s.grain).min(s.count);
-                        for idx in lo..hi {
+                        for j in lo..hi {
+                            let idx = sh_i + j * sh_n;
                             l.index = idx;
                             if opts.trace_cases {
                                 eprintln!("CASE {} {}", pname, idx);
                             }
                             let mut rng = Rng::for_case(opts.seed, &pname, idx);
-                            let r = guard(|| (s.f)(idx, &mut rng, &mut l));
+                            let r = guard(|| (s.f)(j, &mut rng, &mut l));
                             if let Err(p) = r {
                                 l.violation(
                                     "totality",
